@@ -148,11 +148,17 @@ crate::proofs! {
     #[kani::stub(cozy_chess::Board::add_knight_legals, crate::c16::stub_knight)]
     #[kani::stub(cozy_chess::Board::add_slider_legals, crate::c16::stub_slider)]
     #[kani::stub(cozy_chess::Board::add_king_legals, crate::c16::stub_king)]
+    #[kani::stub(cozy_chess::Square::try_index, crate::stubs::square_try_index)]
+    #[kani::stub(cozy_chess::File::try_index, crate::stubs::file_try_index)]
+    #[kani::stub(cozy_chess::Rank::try_index, crate::stubs::rank_try_index)]
     c16_dispatch => dispatch;
     #[kani::unwind(8)]
     #[kani::stub(cozy_chess::Board::add_pawn_legals, crate::c16::stub_pawn)]
     #[kani::stub(cozy_chess::Board::add_knight_legals, crate::c16::stub_knight)]
     #[kani::stub(cozy_chess::Board::add_slider_legals, crate::c16::stub_slider)]
     #[kani::stub(cozy_chess::Board::add_king_legals, crate::c16::stub_king)]
+    #[kani::stub(cozy_chess::Square::try_index, crate::stubs::square_try_index)]
+    #[kani::stub(cozy_chess::File::try_index, crate::stubs::file_try_index)]
+    #[kani::stub(cozy_chess::Rank::try_index, crate::stubs::rank_try_index)]
     c16_full_mask => full_is_masked_full;
 }
